@@ -567,18 +567,29 @@ Proof.
   apply Z.div_small. lia.
 Qed.
 
-(* below 10^21, away from exact decimal ties and from -0, otto's toFixed is ES5's, for every
-   double and every digit count (the RangeError test included) *)
+(* below 10^21 and away from exact decimal ties otto's toFixed is ES5's, for every double (-0
+   included, since the repair) and every digit count (the RangeError test included) *)
 Theorem toFixed_partial : forall bits f neg m e,
-  decode bits = DFin neg m e -> le_pow10 21 m e = false -> (m = 0 -> neg = false) ->
+  decode bits = DFin neg m e -> le_pow10 21 m e = false ->
   decimal_tie m e f = false -> m_to_fixed bits f = to_fixed bits f.
 Proof.
-  intros bits f neg m e Hd Hsmall Hz Ht. unfold m_to_fixed, to_fixed.
+  intros bits f neg m e Hd Hsmall Ht. unfold m_to_fixed, to_fixed.
   rewrite orb_comm. destruct ((f <? 0) || (20 <? f)); [reflexivity|].
-  rewrite Hd, Hsmall. cbn [andb]. unfold go_format_f. f_equal.
+  rewrite Hd, Hsmall. unfold go_format_f. f_equal.
   destruct (Z.eqb_spec m 0) as [->|Hm].
-  - rewrite (Hz eq_refl). rewrite round_half_up_zero. reflexivity.
-  - rewrite andb_true_r. rewrite half_even_is_half_up by assumption. reflexivity.
+  - rewrite round_half_up_zero. reflexivity.
+  - rewrite half_even_is_half_up by assumption. reflexivity.
+Qed.
+
+(* NaN and the infinities: toFixed / toExponential / toPrecision answer before any range test, as ES5 does *)
+Theorem nonfinite_formats : forall bits, (forall neg m e, decode bits <> DFin neg m e) ->
+  (forall f, m_to_exponential bits f = to_exponential bits f) /\
+  (forall p, m_to_precision bits p = to_precision bits p) /\
+  (forall f, m_to_fixed bits f = to_fixed bits f).
+Proof.
+  intros bits H. unfold m_to_exponential, to_exponential, m_to_precision, to_precision, m_to_fixed, to_fixed.
+  destruct (decode bits) as [|neg|neg m e]; [| |exfalso; eapply H; reflexivity];
+    repeat split; intros; try reflexivity; rewrite orb_comm; reflexivity.
 Qed.
 
 (* ---------- among the multiples of 10^p that round to the double, the one chosen is closest to it ---------- *)
